@@ -442,6 +442,12 @@ class Parser(object):
                 t[0] = t[1] * t[3]
             elif t[2] == '/':
                 t[0] = t[1] // t[3]
+            elif t[2] in ('<<', '>>') and not 0 <= t[3] <= 64:
+                self._parser_error(
+                    "shift count '{}' out of range".format(t[3]),
+                    t.lineno(1), t.lexpos(1)
+                )
+                t[0] = 0
             elif t[2] == '<<':
                 t[0] = t[1] << t[3]
             elif t[2] == '>>':
